@@ -252,6 +252,7 @@ PROP = {
         {"name": "c18.gods", "spec": False},       # all 60 x 60 (month pillar, day pillar): indices of get_day_gods
         {"name": "c18.daytaboo", "spec": False},   # all 60 x 60: recommends | avoids
         {"name": "c18.hourtaboo", "spec": False},  # all 60 x 60 (day pillar, hour pillar)
+        {"name": "c18.mixed", "spec": False},      # day and hour look-ups interleaved in one thread (a cache shared between the tables would show)
         {"name": "c18.luck", "spec": False},       # 151 spirits
         {"name": "c18.names", "spec": False},      # names lifted from the source text = names the API returns
         {"name": "c18.kitchen", "spec": False},    # 10,001 years
